@@ -4,6 +4,7 @@
 #include "vrt.hpp"
 #include <unordered_map>
 #include <deque>
+#include <type_traits>
 #include <string>
 
 namespace vrt {
@@ -108,6 +109,7 @@ struct Tracked {
         if (canary != ALIVE) fail("use-after-destroy", "payload destroyed during a write");
         w2 = b | bits;
     }
+    uint64_t read_nofault() const { return read(); }
     // unchecked peek for oracles (no window, no HB): only for the harness's own end-of-case inspection
     uint64_t peek() const { return w1; }
     bool operator==(const Tracked& o) const {
@@ -117,6 +119,23 @@ struct Tracked {
     }
     bool operator!=(const Tracked& o) const { return !(*this == o); }
 };
+
+// A payload whose move operations are noexcept (libraries select different code paths on such type traits); same access windows and
+// shadow state as Tracked, no fault points in the move operations.
+struct TrackedNX {
+    Tracked t;
+    TrackedNX() = default;
+    explicit TrackedNX(uint64_t v) : t(v) {}
+    TrackedNX(const TrackedNX&) = default;
+    TrackedNX& operator=(const TrackedNX&) = default;
+    TrackedNX(TrackedNX&& o) noexcept : t(o.t.read_nofault()) {}
+    TrackedNX& operator=(TrackedNX&& o) noexcept { t.set(o.t.read_nofault()); return *this; }
+    uint64_t read() const { return t.read(); }
+    void set(uint64_t v) { t.set(v); }
+    void or_bits(uint64_t b) { t.or_bits(b); }
+    uint64_t peek() const { return t.peek(); }
+};
+static_assert(std::is_nothrow_move_assignable<TrackedNX>::value && std::is_nothrow_move_constructible<TrackedNX>::value, "TrackedNX must be nothrow movable");
 
 // ------------------------------------------------------------------------------------------ QAlloc
 struct QLedger {
